@@ -50,6 +50,14 @@ type e2eSettings struct {
 	ModelMotionDefaults bool   `json:"model_motion_defaults"` // do not override detection thresholds in config.toml
 	DeviceName          string `json:"device_name"`
 	DeviceID            int    `json:"device_id"`
+	MinDiskMB           uint64 `json:"min_disk_space_mb,omitempty"` // 0: 1 MB
+}
+
+func (s e2eSettings) minDisk() uint64 {
+	if s.MinDiskMB == 0 {
+		return 1
+	}
+	return s.MinDiskMB
 }
 
 func (s e2eSettings) frameSize() int {
@@ -105,7 +113,7 @@ func (s e2eSettings) writeConfig(confDir, outDir string) {
 	fmt.Fprintf(&sb, "[device]\n  id = %d\n  name = %q\n\n", s.DeviceID, s.DeviceName)
 	fmt.Fprintf(&sb, "[location]\n  latitude = -36.5\n  longitude = 174.25\n  altitude = 55.0\n  accuracy = 7.0\n\n")
 	fmt.Fprintf(&sb, "[windows]\n  start-recording = \"03:33\"\n  stop-recording = \"03:33\"\n\n")
-	fmt.Fprintf(&sb, "[thermal-recorder]\n  output-dir = %q\n  min-disk-space-mb = 1\n  min-secs = %d\n  max-secs = %d\n  preview-secs = %d\n  constant-recorder = %v\n\n", outDir, s.Min, s.Max, s.Preview, s.Constant)
+	fmt.Fprintf(&sb, "[thermal-recorder]\n  output-dir = %q\n  min-disk-space-mb = %d\n  min-secs = %d\n  max-secs = %d\n  preview-secs = %d\n  constant-recorder = %v\n\n", outDir, s.minDisk(), s.Min, s.Max, s.Preview, s.Constant)
 	fmt.Fprintf(&sb, "[thermal-throttler]\n  activate = %v\n  bucket-size = \"%ds\"\n  min-refill = \"24h\"\n\n", s.Throttle, s.BucketSecs)
 	fmt.Fprintf(&sb, "[thermal-motion]\n")
 	if !s.ModelMotionDefaults {
